@@ -13,7 +13,8 @@ RULE = ("equilibrium tissues: Voronoi diagrams (uniform / jittered-hexagonal / P
         "0..16 interior points per interface (2-point interfaces on straight tissues only), optionally resampled with "
         "generate_mesh(ne=2..12); x method {default,lsq,lsq_linear} x fit {dlite,taubinSVD}; allow_negatives=False. "
         "decisive = augmented oracle system has full column rank (sigma_min >= 1e-3) and the fit-precision tolerance is "
-        "<= 5% of the largest tension; distinct = (family, cells, equations, unknowns, points, method, fit, pose, resampled)")
+        "<= 5% of the largest tension; distinct = (family, cells, equations, unknowns, points, method, fit, pose, resampled)"
+        ' Added after the seeded rounds: equilibrium tissues with four-fold junctions (vor4/mob4), first segment of a curved interface exactly axis-parallel, 40 % of the default-method solves with all defaults, structure differences judged end to end.')
 MIN_DECISIVE = {"quick": 80, "thorough": 1000}
 REQUIRED_COUNTERS = ["post:solve_stress", "tension:compared"]
 REQUIRED_HIST = {"any": ["method:default", "method:lsq", "method:lsq_linear", "fit:dlite", "fit:taubinSVD", "resampled"]}
